@@ -94,4 +94,6 @@ class CircuitUnitary(Unitary):
                 gate.name = "C" + gate.name
                 gate.control = clist
 
-        return new_circuit
+        # Rebuild the circuit from the controlled gates: its width now includes the control qubits (a width
+        # fixed by the user for the uncontrolled circuit no longer applies) and its gate counts must follow the renamed gates.
+        return Circuit(new_circuit._gates, name=new_circuit.name)
